@@ -470,6 +470,16 @@ def run_history(h):
     ncalls = len(ref_calls)
     recs = []
     chain_plan, chain_res = run_chain_impl(h, ncalls)
+    # dump before the first run(): the loaded simulator must produce the reference run as well
+    try:
+        np.random.seed(h["np_seed"])
+        fresh = build(h, Crashing(make_scheduler(h), None, []))
+        loaded = Simulator.from_json(fresh.to_json())
+        loaded.update_scheduler(Crashing(make_scheduler(h), None, []))
+        loaded.run()
+        pre_res = numeric(loaded)
+    except Exception as e:   # noqa
+        pre_res = "dump before run(), load, run() raised %s: %s" % (type(e).__name__, e)
     for k in range(ncalls):
         np.random.seed(h["np_seed"])
         calls = []
@@ -526,6 +536,7 @@ def run_history(h):
         rec["ref_num"] = ref_num
         if k == 0:
             rec["chain_plan"], rec["chain"] = chain_plan, chain_res
+            rec["pre"] = pre_res
         if problem:
             rec["problem"] = problem
         recs.append(rec)
@@ -592,7 +603,7 @@ def cases_of_history(h):
         complete = all(x in rec for x in ("resumed", "loaded", "resumed_loaded"))
         impl = {x: rec.get(x) for x in ("ref", "crash", "resumed", "loaded", "resumed_loaded", "identity",
                                         "state_diffs", "problem", "ref_num", "resumed_num", "resumed_loaded_num",
-                                        "chain_plan", "chain")}
+                                        "chain_plan", "chain", "pre")}
         if complete:
             coq = ("{| c_events := %s; c_mr := %s; c_k := %d%%nat; c_fuel := %d%%nat;\n   i_ref := %s;\n   i_crash := %s;\n"
                    "   i_resumed := %s;\n   i_loaded := %s;\n   i_resumed_loaded := %s |}") % (
@@ -683,6 +694,12 @@ def monitor(case):
         if d:
             return "interruptions at calls %s (JSON round trip: %s), each followed by run(): %s differs from the uninterrupted run" % (
                 i["chain_plan"][0], i["chain_plan"][1], d)
+    if i.get("pre") is not None:
+        if isinstance(i["pre"], str):
+            return i["pre"]
+        d = first_diff(ref, i["pre"])
+        if d:
+            return "simulator dumped before run(), loaded and run: %s differs from the uninterrupted run" % d
     if i["identity"]:
         return "after loading: " + "; ".join(i["identity"][:3])
     if i["state_diffs"]:
@@ -745,3 +762,6 @@ def _open_finding_files():
 
 
 EXTRA_PROP_FILES = _open_finding_files()
+if EXTRA_PROP_FILES:
+    # its dependencies must be rebuilt by make whenever Gen/ changes
+    TARGETS = TARGETS + ["coq/Props/C09_findings.vo"]
